@@ -833,12 +833,9 @@ package kcache
   at call(doList).after set lastObjs := $result
   at send() assert [answers-the-current-request-once] (= nreply (- nreq 1))
   at send() set nreply := (+ nreply 1)
-  at send()#1 assert [reply-is-the-result-of-this-request] (= $val lastEvents)
-  at send()#2 assert [reply-is-the-result-of-this-request] (= $val lastEvents)
-  at send()#3 assert [reply-is-the-result-of-this-request] (= $val lastEvents)
-  at send()#4 assert [reply-is-a-fresh-snapshot] (= $val lastObjs)
-  at send()#5 assert [get-returns-the-cached-object] (and (select {dom(c.items)} lastKey) (= $val (eobj (select {val(c.items)} lastKey))))
-  at send()#6 assert [get-returns-nil-for-an-absent-key] (and (not (select {dom(c.items)} lastKey)) (= $val vnil))
+  at send():Slice assert [reply-is-the-result-of-this-request] (and (>= kind 1) (<= kind 4) (= $val (ite (= kind 4) lastObjs lastEvents)))
+  at send():V assert [get-returns-the-cached-object-or-nil-for-an-absent-key] (and (= kind 5)
+        (= $val (ite (select {dom(c.items)} lastKey) (eobj (select {val(c.items)} lastKey)) vnil)))
   at call(ShutdownInitiated) assert [shutdown-initiated-once] (= lc 0)
   at call(ShutdownInitiated) set lc := 1
   at call(ShutdownCompleted) assert [after-shutdown-initiated] (= lc 1)
